@@ -9,6 +9,7 @@ package c13
 import (
 	"encoding/json"
 	"fmt"
+	"os"
 	"strings"
 
 	"verif/internal/vrt"
@@ -158,6 +159,12 @@ func fixedScenarios() []fixed {
 	mk("accept", func(sc *scenario) { sc.Mode = "accept" })
 	mk("accept-tcp", func(sc *scenario) { sc.Link, sc.Seg, sc.Mode = "tcp", "cut30", "accept"; sc.End = "app-close" })
 	mk("accept-odd-notices", func(sc *scenario) { sc.Mode = "accept"; sc.OddAccept = true })
+	mk("accept-reverse-to-from", func(sc *scenario) { sc.Mode = "accept"; sc.ReverseEnv = true })
+	mk("accept-reverse-to-from-tcp", func(sc *scenario) {
+		sc.Link, sc.Seg, sc.Mode, sc.ReverseEnv = "tcp", "cut30", "accept", true
+		sc.End = "app-close"
+	})
+	mk("dial-reverse-to-from", func(sc *scenario) { sc.ReverseEnv = true })
 	mk("accept-early-data", func(sc *scenario) { sc.Seg = "whole"; sc.Mode = "accept"; sc.EarlyData = 5 })
 	mk("register-reply-lowercase-x", func(sc *scenario) { sc.RegX = true })
 	mk("version", func(sc *scenario) { sc.Version = true })
@@ -308,6 +315,7 @@ func randomStream(seed int64, i int) scenario {
 	} else {
 		sc.Digis = r.Intn(3)
 	}
+	sc.ReverseEnv = sc.Seed%4 == 1
 	sc.CancelCtx = sc.Mode != "accept" && sc.Seed%2 == 0
 	if sc.Mode != "accept" && sc.Seed%3 == 0 {
 		sc.EarlyData = 1 + int(sc.Seed/3)%5
@@ -427,6 +435,13 @@ func run(c vrt.Case) vrt.Obs {
 	var o vrt.Obs
 	o.Evals = 1
 	e := &env{sc: sc, o: &o, rng: vrt.Rand(sc.Seed, "scenario"), fatal: make(chan struct{})}
+	if sc.ReverseEnv {
+		// the package's documented option for TNCs that want the connection initiator's order in 'Y' queries;
+		// process-wide, set for this scenario only (a worker runs one scenario at a time)
+		os.Setenv("AGWPE_REVERSE_TO_FROM", "1")
+		defer os.Unsetenv("AGWPE_REVERSE_TO_FROM")
+		o.Count("scenarios_with_AGWPE_REVERSE_TO_FROM", 1)
+	}
 	e.guard(e.run)
 	e.rootCause()
 	// goroutines abandoned inside a hanging library call may still touch the observation later:
